@@ -387,8 +387,11 @@ def finish(ctx, level='proof', rule='', assumptions=None, extra=None):
         'property_id': ctx.prop, 'tier': ctx.tier, 'seed': ctx.seed, 'level': level, 'coverage': cov,
         'assumptions': assumptions or [], 'wall_s': round(time.time() - ctx.t0, 2), 'violations': len(ctx.violations),
     }
-    os.makedirs(os.path.join(VERIF, 'evidence'), exist_ok=True)
-    with open(os.path.join(VERIF, 'evidence', ctx.prop + '.json'), 'w') as f:
+    # a run against a scratch tree (VERIF_REPO: self-tests, seeded changes) must not overwrite the evidence of the
+    # repository under check: it goes to evidence/scratch/ (ignored by git)
+    evdir = os.path.join(VERIF, 'evidence') if os.path.realpath(REPO) == os.path.realpath('/repo') else os.path.join(VERIF, 'evidence', 'scratch')
+    os.makedirs(evdir, exist_ok=True)
+    with open(os.path.join(evdir, ctx.prop + '.json'), 'w') as f:
         json.dump(ev, f, indent=1)
     for k in ctx.known:
         print(f'KNOWN-FINDING: property={ctx.prop} {k}')
